@@ -14,12 +14,13 @@ from ipv8.messaging.anonymization.payload import CreatePayload, DataPayload
 from ipv8.messaging.anonymization.tunnel import CIRCUIT_STATE_READY
 
 from .. import core, seams
-from ..tunnelworld import BT_PAYLOAD, EXIT_ALL, RELAY, TunnelWorld
+from ..tunnelworld import BT_PAYLOAD, CONFIG_ROUTES, EXIT_ALL, RELAY, TunnelWorld
 
 LEVEL = "fault_enumeration"
 
 ROLES = {"O": RELAY, "R1": RELAY, "R2": RELAY, "X": EXIT_ALL}
 PATHS = {1: ["X"], 2: ["R1", "X"], 3: ["R1", "R2", "X"]}
+LEGACY_CURVES = ("very-low", "low", "medium", "high")
 FAULT_WINDOW = 30.0     # seconds after the trigger during which sent datagrams are fault candidates
 
 
@@ -103,20 +104,32 @@ def scenarios() -> list[tuple]:
         # build (it knows no exit): its periodic do_circuits() takes the "creation failed" branch before the sweep
         for ph in phases:
             out.append((h, "offline+busy", ph))
+        # ... or the only exit candidate it knows has a legacy (non-curve25519) identity key, which cannot take part
+        # in the circuit key exchange: one scenario per legacy curve
+        for curve, ph in zip(LEGACY_CURVES, [("ready", 0), ("transfer", 0), ("first-data", 0), ("ready", 0)]):
+            out.append((h, f"offline+busy-legacy:{curve}", ph))
     return out
 
 
 def run_one(scn: tuple, faults: dict[int, str], seed: int):  # noqa: ANN201
     """Returns (violations, n_fault_candidates, observation)."""
     h, ini, (phase, k) = scn
-    busy = ini.endswith("+busy")
+    busy = ini.split("+")[1] if "+" in ini else None
     ini = ini.split("+")[0]
     path = PATHS[h]
     viol = []
-    w = TunnelWorld(("c09", seed, scn), ROLES, key_offset=seed)
+    if busy and busy.startswith("busy-legacy"):
+        w = TunnelWorld(("c09", seed, scn), {**ROLES, "L": EXIT_ALL}, key_offset=seed,
+                        curves={"L": busy.split(":")[1]})
+    else:
+        w = TunnelWorld(("c09", seed, scn), ROLES, key_offset=seed)
     try:
         plan = FaultPlan(w, {int(i): f for i, f in faults.items()})
         ov = w.ov
+        if "L" in ov:
+            # the legacy-key peer becomes known to the path nodes only once the circuit under test exists
+            for name in ROLES:
+                ov[name].candidates.pop(w.peer_of(name, "L"), None)
         c = w.start_circuit("O", path)
         cid = c.circuit_id
         if phase == "build":
@@ -139,7 +152,11 @@ def run_one(scn: tuple, faults: dict[int, str], seed: int):  # noqa: ANN201
         if busy:
             for name in path:
                 o = ov[name]
-                o.candidates.clear()            # knows nobody it could build through ...
+                if busy == "busy":
+                    o.candidates.clear()        # knows nobody it could build through ...
+                else:
+                    o.candidates.clear()        # ... or only an exit whose key cannot do the key exchange ...
+                    o.candidates[w.peer_of(name, "L")] = sorted(EXIT_ALL)
                 o.circuits_needed[1] = 1        # ... but wants a circuit: create_circuit fails on every do_circuits()
         # who holds what right now (white box): the initiator tears down whatever entry it has for this circuit
         plan.arm()
@@ -259,12 +276,18 @@ def join_limit_checks(seed: int) -> tuple[list, int]:
     """max_joined_circuits = 2; 4 originators' create requests in every order; joined count never exceeds the limit."""
     viol, execs = [], 0
     names = ["A", "B", "C", "D"]
-    for limit in (1, 2):
+    for limit, route in [(lim, r) for lim in (1, 2) for r in ("attr-after-load", *CONFIG_ROUTES)]:
         for order in itertools.permutations(range(4)):
-            w = TunnelWorld(("c09j", seed, limit, order), {**{n: RELAY for n in names}, "X": EXIT_ALL}, key_offset=seed)
+            if route == "attr-after-load":
+                w = TunnelWorld(("c09j", seed, limit, order), {**{n: RELAY for n in names}, "X": EXIT_ALL},
+                                key_offset=seed)
+            else:
+                w = TunnelWorld(("c09j", seed, limit, order, route), {**{n: RELAY for n in names}, "X": EXIT_ALL},
+                                key_offset=seed, route=route, max_joined_circuits=limit)
             try:
                 x = w.ov["X"]
-                x.settings.max_joined_circuits = limit
+                if route == "attr-after-load":
+                    x.settings.max_joined_circuits = limit
                 cs = [w.start_circuit(n, ["X"]) for n in names]
                 assert len(w.inflight) == 4
                 dgs = list(w.inflight)
@@ -278,12 +301,14 @@ def join_limit_checks(seed: int) -> tuple[list, int]:
                 ready = sum(1 for c in cs if c.state == CIRCUIT_STATE_READY)
                 execs += 1
                 if peak > limit or ready > limit:
-                    viol.append(("join-limit-exceeded", f"limit={limit} order={order}: joined peak {peak}, "
+                    viol.append((f"join-limit-exceeded:configured-by={route}",
+                                 f"limit={limit} (configured by {route}) order={order}: joined peak {peak}, "
                                  f"{ready} circuits became ready", {"kind": "join", "limit": limit, "order": order,
-                                                                      "seed": seed}))
+                                                                      "seed": seed, "route": route}))
                 if ready < limit:
-                    viol.append(("join-limit-too-strict", f"limit={limit} order={order}: only {ready} joined",
-                                 {"kind": "join", "limit": limit, "order": order, "seed": seed}))
+                    viol.append((f"join-limit-too-strict:configured-by={route}",
+                                 f"limit={limit} (configured by {route}) order={order}: only {ready} joined",
+                                 {"kind": "join", "limit": limit, "order": order, "seed": seed, "route": route}))
             finally:
                 w.close()
     return viol, execs
@@ -292,15 +317,20 @@ def join_limit_checks(seed: int) -> tuple[list, int]:
 def relay_early_checks(seed: int) -> tuple[list, int]:
     """A relay forwards at most max_relay_early relay_early-flagged cells per circuit, whatever the originator sets."""
     viol, execs = [], 0
-    for h in (2, 3):
-        for budget in (8, 3):
-            w = TunnelWorld(("c09r", seed, h, budget), ROLES, key_offset=seed)
+    for h, budget, route in [(h, b, r) for h in (2, 3) for b in (8, 3) for r in ("attr-after-load", *CONFIG_ROUTES)]:
+        if True:
+            if route == "attr-after-load":
+                w = TunnelWorld(("c09r", seed, h, budget), ROLES, key_offset=seed)
+            else:
+                w = TunnelWorld(("c09r", seed, h, budget, route), ROLES, key_offset=seed, route=route,
+                                max_relay_early=budget)
             try:
-                for o in w.ov.values():
-                    o.settings.max_relay_early = budget
+                if route == "attr-after-load":
+                    for o in w.ov.values():
+                        o.settings.max_relay_early = budget
                 c = w.build_circuit("O", PATHS[h])
                 if c.state != CIRCUIT_STATE_READY:
-                    viol.append(("harness:circuit-not-ready", f"h={h} budget={budget}", None))
+                    viol.append(("harness:circuit-not-ready", f"h={h} budget={budget} route={route}", None))
                     continue
                 c.relay_early_count = -10 ** 6   # a misbehaving originator: every cell is flagged relay_early
                 first = w.nodes[PATHS[h][0]].address
@@ -316,7 +346,8 @@ def relay_early_checks(seed: int) -> tuple[list, int]:
                 execs += 1
                 # the RelayRoute starts its count at 1 (the extend that created it), extends while building count too
                 if fwd_early > budget:
-                    viol.append(("relay-early-budget", f"h={h} budget={budget}: first relay forwarded {fwd_early} "
+                    viol.append((f"relay-early-budget:configured-by={route}",
+                                 f"h={h} budget={budget} (configured by {route}): first relay forwarded {fwd_early} "
                                  f"relay_early cells after the circuit was ready", {"kind": "relay_early", "h": h,
                                                                                    "budget": budget, "seed": seed}))
             finally:
